@@ -73,7 +73,9 @@ def execSerdeCore (st : DState) (env : Env) (isSet : Bool) (name : String) (args
   | "deser_in_place", hint :: fail :: base :: toks =>
     let hint := optNat hint
     let toks := parseToks isSet (nat! base) 0 toks
-    no <| serdeOut (Serde.deserializeInPlace cfg env hint toks (parseFail fail) w)
+    -- sets: the in-place visitor; maps: serde's default `*place = deserialize()?`
+    no <| serdeOut (if isSet then Serde.deserializeInPlace cfg env hint toks (parseFail fail) w
+                    else Serde.deserAssign cfg env hint toks (parseFail fail) w)
       (fun w' => s!"ok len={w'.t.items} contents={fmtContents ids w'.t}")
       (fun w' => s!"err len={w'.t.items}") w
   | _, _ => execMapOp st env name args other w
